@@ -40,6 +40,9 @@ CHECKS = {
  "C04": dict(engine="H", tech=H, ref="DESIGN.md §3 C04",
    text="Breadth-first to a fixpoint over all operation sequences (Set/SetIfAbsent/SetAndGetRemoved x 3 keys x sizes 0,1,2,5, Get/Peek/Exist/Delete, Clear, SetCapacity 0,1,3,4) on the real cache.LRUCache and tiny.LRUCache; state key = (recency order, entry weights, capacity) = the complete observable state; every call result, Keys, Items (value identity), Stats and Size<=Capacity compared with a slice-based ideal LRU after every step. Wide variants (1,2,3 shards, modulo/xxhash) against one ideal LRU per shard, all keys probed after every step.",
    note="SetIfAbsent on a present key may or may not refresh recency; the concurrent clause is covered by the engine-S scenarios listed in DESIGN.md once built"),
+ "C03": dict(engine="H", tech=H, ref="DESIGN.md §3 C03",
+   text="Breadth-first to a fixpoint over all operation sequences on the real B-tree for degrees 2,3,4 over 8 keys (11 keys for degree 2 in the thorough tier), states merged on the canonical node shape; on every transition structure, length and full content (with item versions) are compared with a sorted slice, and on every newly reached shape ALL scans from EVERY pivot with early stop after 0/1/2/all items, Min/Max/Get/Has. Two-tree clone programs (writes to either side, re-clone, swap) against two independent models; the locked wrapper with Update/UpdateOrInsert over all key pairs and scans x pivots x 4 filters x 5 limits.",
+   note="hooks VerifCheck/VerifShape/VerifInner come from the overlay; the concurrent clauses (clone writers, wrapper readers/writers) are engine-S scenarios"),
 }
 NA = {}
 
